@@ -16,7 +16,7 @@ property_meta('C05', level='proof', min_obligations=40,
               assumptions=['Sim3 Jinvp up to the documented truncation of sim3_Jl_inv (C04.sim3_Jl.series)'],
               explanation='conjugation identities are polynomial modulo unit norm; Retr/add/Jinvp by-contract through the real lietensor.py glue; Jr by exact differentiation of the traced Exp')
 
-REG = ('generic', 'zero', 'tiny', 'subeps', 'small', 'large')
+REG = ('generic', 'zero', 'tiny', 'subeps', 'sqrteps', 'micro', 'small', 'large')
 
 for g in GROUPS:
     def mk(g=g):
@@ -132,7 +132,7 @@ def jr(env):
         cols = [2 * op.SO3_Mul.forward(qc, J[:, j])[0:3] for j in range(3)]
         env.eq('Jr_is_right_trivialised_differential_of_Exp', Jr, T.stack(cols, -1))
     else:
-        env.eq('Jr_is_identity_at_small_x', Jr, I)
+        env.eq_order('Jr_is_identity_at_x_0 (and I + O(|x|) below the switch)', Jr, I, xd, 1)
     env.safe('defined', Jr)
 
 
